@@ -245,7 +245,12 @@ func (s *store) listFull() (result listFullResult) {
 func (s *store) authenticate(username, password string) (result authenticateResult) {
 	result.ok, result.isAdmin, result.upgradeable, result.lastChanged, result.err = s.dir.Authenticate(username, password)
 	if result.ok && result.upgradeable && s.upgradeChan != nil {
-		s.upgradeChan <- updateRequest{username: username, password: password}
+		// never block here: for local upgrades this queue is drained by this very goroutine
+		select {
+		case s.upgradeChan <- updateRequest{username: username, password: password}:
+		default:
+			wdl.Printf("upgrade: ignoring upgrade request for '%s', the queue is full", username)
+		}
 	}
 	return
 }
